@@ -23,6 +23,7 @@ from debian._deb822_repro.tokens import (
     tokenize_deb822_file, comma_split_tokenizer, whitespace_split_tokenizer,
 )
 from debian._deb822_repro._util import (combine_into_replacement, BufferingIterator,
+                                        split_lines_keepends,
                                         len_check_iterator,
                                         )
 
@@ -536,7 +537,7 @@ class Deb822ParsedTokenList(Generic[VE, ST],
         else:
             text = self._generate_reformatted_field_content()
 
-        new_content = text.splitlines(keepends=True)
+        new_content = split_lines_keepends(text)
 
         # As absurd as it might seem, it is easier to just use the parser to
         # construct the AST correctly
@@ -2028,7 +2029,7 @@ class Deb822ParagraphElement(Deb822Element, Deb822ParagraphToStrWrapperMixin, AB
             # If we already have the field, then preserve the original case
             cased_field_name = original.field_name
         raw = ":".join((cased_field_name, raw_string_value))
-        raw_lines = raw.splitlines(keepends=True)
+        raw_lines = split_lines_keepends(raw)
         for i, line in enumerate(raw_lines, start=1):
             if not line.endswith("\n"):
                 raise ValueError("Line {i} in new value was missing trailing newline".format(i=i))
